@@ -182,24 +182,37 @@ Fixpoint compress {X} (l : list X) (m : list bool) : list X :=
 Definition grids_of (cs : list cache) : list nat := somes (map c_omega cs).
 Definition count_true (l : list bool) : nat := length (filter (fun b => b) l).
 
+(* the part of concatenate after the frequencies [w] are settled *)
+Definition finish (equal_n lens_ok rows_ok : bool) (o : opts) (w : nat) : outcome :=
+  if negb equal_n then
+    (* newpulse.cache_filter_function(omega, which=which): from scratch, no correlations *)
+    ORet (mkRet PScratch true (Some w) true true (o_gen o) false false)
+  else if negb lens_ok then ORaise EIndexError
+  else if negb rows_ok then ORaise EShapeError
+  else ORet (mkRet PAtomic true (Some w) true true (o_gen o) (o_pc o) (o_pc o && o_gen o)).
+
+(* the identifiers each pulse is believed to hold (values of its identifier mapping), the sorted union,
+   and `equal_n_opers = (n_opers_present.sum(axis=0) > 1).any()` *)
+Definition pulse_ids (maps : list (list (string * string))) : list (list string) :=
+  map (fun m => nodup_str (map snd m)) maps.
+Definition unique_ids (maps : list (list (string * string))) : list string :=
+  sort_by (fun s => s) (nodup_str (concat (pulse_ids maps))).
+Definition present (maps : list (list (string * string))) : list (list bool) :=
+  map (fun pid => map (fun u => mem_str u pid) (unique_ids maps)) (pulse_ids maps).
+Definition equal_n_opers (maps : list (list (string * string))) : bool :=
+  existsb (fun u => 1 <? count_true (map (mem_str u) (pulse_ids maps))) (unique_ids maps).
+
 (* [new_ids]: noise identifiers of the new pulse; [maps]: noise identifier mapping returned by the Hamiltonian
    concatenation; [nn]: number of noise operators of each input pulse *)
 Definition decide (new_ids : list string) (maps : list (list (string * string))) (nn : list nat)
                   (cs : list cache) (o : opts) : outcome :=
   let tp := forallb c_tp cs in
   if is_tfalse (o_ff o) && negb (o_pc o) then ORet (ham_only tp) else
-  let pids := map (fun m => nodup_str (map snd m)) maps in
-  let uids := sort_by (fun s => s) (nodup_str (concat pids)) in
-  let present := map (fun pid => map (fun u => mem_str u pid) uids) pids in
-  let equal_n := existsb (fun u => 1 <? count_true (map (mem_str u) pids)) uids in
-  let finish (w : nat) : outcome :=
-    if negb equal_n then
-      ORet (mkRet PScratch true (Some w) true true (o_gen o) false false)
-    else if negb (length uids =? length new_ids) then ORaise EIndexError
-    else if negb (forallb (fun x => count_true (fst x) =? snd x) (combine present nn)) then ORaise EShapeError
-    else ORet (mkRet PAtomic true (Some w) true true (o_gen o) (o_pc o) (o_pc o && o_gen o)) in
+  let equal_n := equal_n_opers maps in
+  let lens_ok := length (unique_ids maps) =? length new_ids in
+  let rows_ok := forallb (fun x => count_true (fst x) =? snd x) (combine (present maps) nn) in
   match o_omega o with
-  | Some w => finish w
+  | Some w => finish equal_n lens_ok rows_ok o w
   | None =>
       let cms := map c_cm cs in
       let any_cm := existsb (fun b => b) cms in
@@ -209,7 +222,7 @@ Definition decide (new_ids : list string) (maps : list (list (string * string)))
         else if o_pc o then ORaise ENoFreqPC
         else ORet (ham_only tp)
       else if is_tnone (o_ff o) && (negb equal_n || negb any_cm) then ORet (ham_only tp)
-      else match gs with w :: _ => finish w | [] => ORet (ham_only tp) end
+      else match gs with w :: _ => finish equal_n lens_ok rows_ok o w | [] => ORet (ham_only tp) end
   end.
 
 Definition concatenate_outcome (ps : list pulse) (cs : list cache) (o : opts) : outcome :=
